@@ -235,7 +235,16 @@ class CellView:
         self.psum += post.float()
 
     def clear(self):
-        delattr(self.layer.updater, self.param)
+        # the documented ways of emptying an accumulator, in turn: the attribute deleter, Accumulator.clear(),
+        # Updater.clear() - after any of them a part that is not written again must read as absent (C09-m10)
+        self._nclear = getattr(self, "_nclear", 0) + 1
+        how = self._nclear % 3
+        if how == 0:
+            delattr(self.layer.updater, self.param)
+        elif how == 1:
+            self.acc.clear()
+        else:
+            self.layer.updater.clear()
 
     def read(self):
         p, n = self.acc.pos, self.acc.neg
